@@ -58,6 +58,11 @@ func (ex *exec) calleeContract(c *ssa.CallCommon) (*FuncContract, *ssa.Function,
 	}
 	fn := c.StaticCallee()
 	if fn == nil {
+		// a value of a named function type with a functype contract
+		if n, ok := types.Unalias(c.Value.Type()).(*types.Named); ok && n.Obj().Pkg() != nil {
+			key := "functype:" + n.Obj().Pkg().Name() + "." + n.Obj().Name()
+			return eng.contracts[key], nil, key
+		}
 		return nil, nil, ""
 	}
 	key := funcKey(fn)
@@ -227,6 +232,17 @@ func calleeParamInfo(fc *FuncContract, fn *ssa.Function, c *ssa.CallCommon) ([]s
 		return names, typs
 	}
 	sig := c.Signature()
+	if strings.HasPrefix(fc.Key, "functype:") {
+		for i := 0; i < sig.Params().Len(); i++ {
+			n := sig.Params().At(i).Name()
+			if i < len(fc.ParamNames) {
+				n = fc.ParamNames[i]
+			}
+			names = append(names, n)
+			typs = append(typs, sig.Params().At(i).Type())
+		}
+		return names, typs
+	}
 	if c.IsInvoke() {
 		names = append(names, fc.RecvName)
 		typs = append(typs, c.Value.Type())
